@@ -331,6 +331,7 @@ class Sim(object):
         self.spin_jumps = 0
         self.last_adv_step = 0
         self.leaked = 0
+        self.leak_info = []
         self.trace_fn = None        # installed by sim.trace
         self.nlog = 0
         self.idle_hooks = []        # callables run when everything is blocked (before time advance); return True if they made progress
@@ -465,8 +466,14 @@ class Sim(object):
                 continue
             self.current = t
             t.baton.release()
-            if not root.baton.acquire(True, 60):
+            if not root.baton.acquire(True, 20):
                 self.leaked += 1
+                try:
+                    fr = sys._current_frames().get(t.ident)
+                    self.leak_info.append("%s: %s" % (t.name, " <- ".join("%s:%d:%s" % (os.path.basename(f.filename), f.lineno, f.name)
+                                                                          for f in reversed(traceback.extract_stack(fr)[-8:]))))
+                except Exception as e:      # noqa
+                    self.leak_info.append("%s: ? (%r)" % (t.name, e))
         # tasks spawned during the kill phase are DONE already (spawn() refuses)
         self.current = root
         self.dead = True
